@@ -1,4 +1,4 @@
-import DAVerif.Proofs.WithSound
+import DAVerif.Proofs.WithFix
 /-
 SQL scoping of CTE names (finding D24): in the text `WITH extend_1 AS (…) … FROM "extend_1"` a table reference that is
 spelled like an earlier CTE denotes the CTE.  `semWithC` (Sql/WithFormG.lean) is `semWith` with that rule; it agrees
@@ -128,13 +128,13 @@ def TablesIn (near : Near) (r : Near × List WithStep × Option Cache) : Prop :=
 
 theorem stubStep_tables (key : KeyFn) (near : Near) (cols : Option (List String)) (force : Bool) (cache : Option Cache)
     (ih : TablesIn near (toWithFormG key cache near)) :
-    TablesIn near (stubStep key near cols force (toWithFormG key cache near)) := by
+    TablesIn near (stubStep key cache near cols force (toWithFormG key cache near)) := by
   by_cases ht : near.isTable = true
-  · rw [stubStep_isTable key cols force _ ht]; exact ih
-  · cases hl : ((toWithFormG key cache near).2.2.bind fun c => lookupLast c (key near cols)) with
-    | some nm => rw [stubStep_hit key cols force _ ht hl]; exact ⟨by simp [Near.tables], by simp⟩
+  · rw [stubStep_isTable key _ cols force _ ht]; exact ih
+  · cases hl : (cache.bind fun c => lookupLast c (key near cols)) with
+    | some nm => rw [stubStep_hit key _ cols force _ ht hl]; exact ⟨by simp [Near.tables], by simp⟩
     | none =>
-      rw [stubStep_miss key cols force _ ht hl]
+      rw [stubStep_miss key _ cols force _ ht hl]
       refine ⟨by simp [Near.tables], ?_⟩
       intro st hst
       simp only at hst
@@ -159,7 +159,7 @@ theorem toWithFormG_tables (key : KeyFn) (near : Near) : ∀ cache, TablesIn nea
     intro cache
     rw [toWithFormG_join]
     have h1 := stubStep_tables key l (some lc) false cache (ihl cache)
-    have h2 := stubStep_tables key r (some rc) false _ (ihr (stubStep key l (some lc) false (toWithFormG key cache l)).2.2)
+    have h2 := stubStep_tables key r (some rc) false _ (ihr (stubStep key cache l (some lc) false (toWithFormG key cache l)).2.2)
     refine ⟨?_, ?_⟩
     · intro n hn
       simp only [Near.tables, List.mem_append] at hn ⊢
@@ -175,7 +175,7 @@ theorem toWithFormG_tables (key : KeyFn) (near : Near) : ∀ cache, TablesIn nea
     intro cache
     rw [toWithFormG_union]
     have h1 := stubStep_tables key l (some cs) true cache (ihl cache)
-    have h2 := stubStep_tables key r (some cs) true _ (ihr (stubStep key l (some cs) true (toWithFormG key cache l)).2.2)
+    have h2 := stubStep_tables key r (some cs) true _ (ihr (stubStep key cache l (some cs) true (toWithFormG key cache l)).2.2)
     refine ⟨?_, ?_⟩
     · intro n hn
       simp only [Near.tables, List.mem_append] at hn ⊢
